@@ -712,7 +712,7 @@ module.exports = {
   execute,
   shrink,
   summarise,
-  rule: 'a case is one seeded history (8-40 operations: Rewrite through CacheRewriter by one of <=2 rewriter instances / NonCacheRewrite / Load / Throw at a generator-known site via {string path, user handler, late handler, re-wrapped handler} / SetHandler / Lookup / FsMutate / FsFault / Burst>1000) over <=4 files x <=4 versions (modified, not-modified, syntax error; inline or external original map when chaining) and <=2 disk-only files; distinct = hash of the abstract history (operation kind, file index, relation {first, same, newer} x status, handler kind); non-trivial = at least two operations',
+  rule: 'a case is one seeded history (8-40 operations: Rewrite through CacheRewriter by one of <=2 rewriter instances / NonCacheRewrite / Load / Throw at a generator-known site via {string path, user handler, late handler, re-wrapped handler} / SetHandler / Lookup / FsMutate / FsFault / Burst>1000 / Pin (the external original map is replaced by one that sends a site to exactly its generated line and column in another file, learned from a first throw; the file is rewritten again, both flavours must report the other file; the map is put back)) over <=4 files x <=4 versions (modified, not-modified, syntax error; inline or external original map when chaining) and <=2 disk-only files; distinct = hash of the abstract history (operation kind, file index, relation {first, same, newer} x status, handler kind); non-trivial = at least two operations',
   components: {
     real: ['main.js (CacheRewriter, NonCacheRewriter)', 'js/source-map/index.js + node_source_map.js', 'js/stack-trace/index.js', 'lru-cache 7.18.3 (vendored copy of the real library)', 'V8 call sites / prepareStackTrace protocol / vm.compileFunction', 'Rust rewriter (rewrite_js, print_js, chaining) via simrw batch'],
     simulated: ['fs under js/source-map (existsSync/readFileSync with faults)'],
@@ -724,5 +724,5 @@ module.exports = {
     'frames of code that is older than the latest rewrite of its file carry no positional expectation (the package keys by file name)',
     'batching the rewriter is sound here because call-to-call state of the rewriter is C16\'s subject'
   ],
-  expectedProbes: ['probe:frame-in-unmapped-region-of-chained-map', 'probe:frame-in-rewritten-file', 'probe:frame-through-chained-map', 'probe:file-rewritten-again', 'probe:throw-from-stale-code', 'probe:notmodified-after-modified', 'probe:rewrite-by-second-rewriter-instance', 'probe:eval-frame', 'probe:frame-in-never-rewritten-file', 'probe:lru-eviction-burst', 'probe:cross-file-stack', 'probe:string-path', 'probe:structured-path', 'probe:lookup-translated', 'probe:two-stacks-from-one-expression', 'probe:frame-in-second-source-of-bundle-map', 'probe:eval-made-function-called-from-outside', 'probe:more-than-1000-files-rewritten', 'probe:message-contains-own-frame-location']
+  expectedProbes: ['probe:frame-in-unmapped-region-of-chained-map', 'probe:frame-in-rewritten-file', 'probe:frame-through-chained-map', 'probe:file-rewritten-again', 'probe:throw-from-stale-code', 'probe:notmodified-after-modified', 'probe:rewrite-by-second-rewriter-instance', 'probe:eval-frame', 'probe:frame-in-never-rewritten-file', 'probe:lru-eviction-burst', 'probe:cross-file-stack', 'probe:string-path', 'probe:structured-path', 'probe:lookup-translated', 'probe:two-stacks-from-one-expression', 'probe:frame-in-second-source-of-bundle-map', 'probe:eval-made-function-called-from-outside', 'probe:more-than-1000-files-rewritten', 'probe:message-contains-own-frame-location', 'probe:generated-position-equals-original-position']
 }
